@@ -1355,12 +1355,26 @@ class C14(C01):
     dtype_choices = [["f8"], ["f8", "f4"], ["f4"], ["f2", "f4"], ["f2"]]
 
     def generate(self, rng):
-        if rng.random() < 0.3:
+        c = rng.random()
+        if c < 0.25:
             return self._gen_nnet(rng)
+        if c < 0.45:
+            return self._gen_mutation(rng)
         self._seed = None
         h = super().generate(rng)
         h["prop"] = self.id
         return h
+
+    def _gen_mutation(self, rng):
+        """in-place / where-masked histories (gradients that reach a tensor through placeholders,
+        masks and 0-d reductions), all float dtypes, seeded terminals"""
+        cfg = {"lane": "mutation", "id_policy": "never", "max_elems": rng.choice([4, 8]), "max_ndim": rng.choice([0, 1, 2]), "dtypes": rng.choice(self.dtype_choices), "tape": True,
+               "exact": False, "const_flags": False}
+        g = Gen(rng, cfg)
+        w = {"view": 3, "adv": 0.5, "read": 4, "setitem": 2, "iop": 2, "ufunc": 4, "setshape": 0.3, "drop": 0.3, "leaf": 1, "fail": 0}
+        eg = EpochGen(g, {"weights": w, "max_events": rng.choice([5, 9]), "end": [("backward", 1)], "min_ndim": 0})
+        eg.run(rng.randint(1, 2))
+        return {"prop": self.id, "cfg": cfg, "events": g.ev}
 
     def _gen_nnet(self, rng):
         cfg = {"lane": "nnet", "id_policy": "never", "max_elems": 8, "max_ndim": 2, "dtypes": rng.choice([["f8"], ["f4"], ["f8", "f4"]]), "tape": True, "exact": False}
@@ -1404,6 +1418,8 @@ class C14(C01):
     def observers(self, hist):
         if hist["cfg"].get("lane") == "nnet":
             return [O.GradShapeOracle()]
+        if hist["cfg"].get("lane") == "mutation":
+            return [O.GradShapeOracle(), O.GradOracle("C14")]
         return [O.GradShapeOracle(), O.GradOracle("C14"), O.CrossScheduleOracle("C14", skip_above=900)]
 
     def nontrivial(self, world):
@@ -1867,10 +1883,15 @@ class C17(Prop):
                     dtc = rng.choice(["f8", "f4"])
                 h = g.new_h()
                 c = rng.choice([None, None, None, True])
-                g.emit({"k": "wrap", "out": h, "src": src, "how": how, "constant": c, "dtype": dtc})
+                ndmin = 0
+                if how != "astensor" and rng.random() < 0.3:
+                    ndmin = rng.randint(0, v.ndim + 2)
+                g.emit({"k": "wrap", "out": h, "src": src, "how": how, "constant": c, "dtype": dtc, "ndmin": ndmin})
                 same_dt = dtc is None or np.dtype({"f8": np.float64, "f4": np.float32}[dtc]) == v.dtype
                 shares = how in ("tensor_nocopy", "astensor", "Tensor_nocopy") and same_dt
                 val = v if shares else np.array(v, dtype=({"f8": np.float64, "f4": np.float32}[dtc] if dtc else v.dtype), copy=True)
+                if ndmin > val.ndim:
+                    val = val[(None,) * (ndmin - val.ndim)]
                 g.fam_id += 1
                 g.t[h] = G(val, c if c is not None else (val.dtype.kind != "f"), -1, g.fam_id)
             elif k == "conv":
